@@ -1524,6 +1524,11 @@ impl EnergyWorld {
     #[allow(clippy::too_many_arguments)]
     fn oracles(&mut self, tr: &mut Trace, site: &str, pre: &Snap, post: &Snap, ok: bool, inf: &Info, pre_line: &str, post_line: &str) {
         self.oracle_c08(tr, site, post);
+        // ---- C19: while the energy factory is paused nothing that moves tokens or energy through it succeeds
+        if ok && pre.paused && matches!(site, "lock" | "extend" | "unlock" | "merge" | "unlockEarly" | "reduce" | "lockVirtual"
+            | "cancel" | "lockFunds" | "withdraw" | "cancelTransfer" | "wrap" | "unwrap") {
+            tr.fail("C19", "paused_blocks_funds", site, "an operation that moves tokens or energy through the factory succeeded while it is paused");
+        }
         // ---- supply ledgers (every transaction)
         let lhs = &post.base_supply + &self.g.bl + &self.g.bc;
         let rhs = &self.base_init + &self.g.mu + &self.g.me;
